@@ -48,7 +48,11 @@ CHECKS.update({
         design="§8 C07, §9 C05-C07",
         note="Trusted as for C05; str::contains('^') is an uninterpreted predicate of the pragma text (assumed std contract).",
         technique="contract-based deductive verification (Verus) of three of the four real detector functions; bounded executable-contract check for unprotected_selfdestruct"),
-    "C06": bounded("Executable contracts (must/may sets per DESIGN §8, computed over the generated complete node enumeration) of the five declaration-level detectors on a declaration matrix (13 types x visibilities x constant/immutable x underscore, in contract/abstract/library/interface; function visibility x mutability x underscore x body; 26 constructor-order templates incl. cross-contract, 3..300 functions) + seeded random member orders.", "these five functions YET (Verus unit det_decl is work in progress: for-with-continue needs the R5 desugaring, Vec::clone of attributes)", "§8 C06"),
+    "C06": dict(level="proof",
+        text="All five declaration-level detectors are PROVED with Verus against DESIGN §8: payable_function (incl. the contract_part().unwrap() site, discharged by a GENERATED and PROVED structural lemma: no SourceUnit/SourceUnitPart node lies strictly below a top-level item), private_constant, private_vars_leading_underscore, private_func_leading_underscore, constructor_order (per-contract prefix contract: a constructor is reported iff an earlier member of the SAME contract is a function other than constructor/modifier). The results are unions over the contract nodes of the complete enumeration (C01), so members of other contracts cannot influence a verdict. The bounded native declaration matrix is the counterexample engine and is not counted.",
+        design="§8 C06, §9 C05-C07",
+        note="Trusted: Verus/Z3, vstd, walker contract (proved, C01), assumed std contracts (str::starts_with as an uninterpreted predicate of the name, clone returns an equal value, FunctionTy equality structural, Expression::loc() == generated spec twin of the pt.rs impl), R5 desugaring of for+continue, parser invariant: a type expression is not an empty string/hex literal.",
+        technique="contract-based deductive verification (Verus) of the five real detector functions; bounded native matrix only for counterexamples"),
     "C08": bounded("Executable never/always contracts of constant_variables, immutable_variables, memory_to_calldata, sstore: 40 write positions (incl. catch bodies, modifier and base-constructor arguments, exponents) x 15 write forms x targets, multi-write files, parameter-write forms x function kinds.", "by-value iteration over HashMap and labelled continue in get_32_byte_storage_variables without a trusted iterator model (second wave, DESIGN §9 C08)", "§8 C08, §9 C08"),
     "C09": bounded("The real version extractor and the four version-gated detectors on every version triple 0.0.0..1.2.40 (thorough: x 6 operator spellings x 4 placements of unrelated pragmas x 3 bodies, exhaustive over that stated domain; quick: all triples with the plain spelling + boundary versions x operators x placements), never-both, monotonicity, 31/32/33-byte strings.", "the regex crate and iterator adapters in the version extractor (gates: Verus unit det_gate is work in progress)", "§8 C09, §9 C09"),
     "C04": dict(level="other",
